@@ -4,4 +4,5 @@
 hydro_lang::setup!();
 
 pub mod atomics;
+pub mod c41progs;
 pub mod slices;
